@@ -105,6 +105,34 @@ CHECKS = {
         "Trusts vf/ref/response.py and vf/apps.intended(); programs outside the WSGI contract are not generated.",
         "DESIGN.md 4 C03, 2.4, 2.5",
     ),
+    "C07": (
+        "sync",
+        "exploration",
+        "runtime monitoring: reference environ model (written from PEP 3333 and the docs) compared with the environ and "
+        "wsgi.input the application actually receives, over generated well-formed requests and configurations",
+        "Generated canonically well-formed requests (token names incl. dash/underscore aliases and CGI-shadowing names, "
+        "repeated fields, obs-text, every target form, valid/invalid escapes, empty/small/temp-file/chunked bodies, "
+        "pipelines) x url_prefix/url_scheme/server_name x TCP and unix peers are executed by the real server code; the "
+        "exact HTTP_* key set, joined values, server-defined keys, PATH_INFO/QUERY_STRING/SCRIPT_NAME and "
+        "len(wsgi.input)==CONTENT_LENGTH are compared with an independent reference.",
+        "Trusts vf/ref/environ.py; unix-socket SERVER_PORT/REMOTE_PORT, authority-form and empty absolute paths are "
+        "unjudged (PEP 3333 / docs leave them undefined) and counted as such.",
+        "DESIGN.md 4 C07",
+    ),
+    "C08": (
+        "sync",
+        "exploration",
+        "runtime monitoring: line-level oracle on the response head bytes for application-supplied status/header "
+        "strings with an offending character at every position; both start_response calls; late mutation",
+        "Application programs whose status, header names and values contain each of 42 troublemaker characters at every "
+        "position (exhaustive for one offender), non-str objects, hop-by-hop names, via the initial call, the exc_info "
+        "re-call before/after output and mutation after the call, over list/generator/write()/file_wrapper bodies and "
+        "HTTP/1.0/1.1. The head must be exactly status line + the application's lines + the server's own lines with no "
+        "bare CR/LF, or a clean 500 that contains none of the application's strings.",
+        "Trusts the line-level oracle and the server's 500 template as the definition of a refusal; strings that cannot "
+        "be encoded to latin-1 may be refused with a clean 500 (counted, not judged).",
+        "DESIGN.md 4 C08",
+    ),
 }
 
 PENDING = {}
